@@ -6,5 +6,5 @@ mkdir -p /tmp/seedrun; git -C /repo worktree add -q "$W" HEAD || exit 2
 git -C "$W" apply "$V/seeded/$id/patch.diff" || { echo "patch does not apply"; git -C /repo worktree remove --force "$W"; exit 2; }
 cd "$V" && DCG_REPO="$W" ./check "$prop" --tier "$tier" 2>&1 | grep -v conda | grep -E "VIOLATION|^OK|BROKEN|DISAGREEMENT|ORACLE-FAILURE|INFRA" | cut -c1-400 | head -${SEED_LINES:-6}
 rc=${PIPESTATUS[0]}
-git -C /repo worktree remove --force "$W"
+git -C /repo worktree remove --force "$W"; (cd "$V" && /venv/bin/python -m vlib.translate.all >/dev/null 2>&1)
 exit $rc
